@@ -142,6 +142,48 @@ func smRun(h []int) (kind, detail string, mod *ref.MapModel) {
 	return
 }
 
+// smGap: a segment, then `gap` line breaks (how=0: AdvanceLine calls; 1: one AdvanceString of LFs; 2: CRLFs with
+// text in between), then three more segments on two lines, a long column advance and a named segment.
+func smGap(gap, how int) (kind, detail string) {
+	defer func() {
+		if r := recover(); r != nil {
+			kind, detail = "panic", fmt.Sprint(r)
+		}
+	}()
+	m := sourcemap.New()
+	mod := ref.NewMapModel()
+	m.AddMapping(0, 0)
+	mod.Add(0, 0)
+	switch how {
+	case 0:
+		for i := 0; i < gap; i++ {
+			m.AdvanceLine()
+			mod.AdvLine()
+		}
+	case 1:
+		s := strings.Repeat("\n", gap)
+		m.AdvanceString(s)
+		mod.AdvStr(s)
+	default:
+		s := strings.Repeat("ab\r\n", gap)
+		m.AdvanceString(s)
+		mod.AdvStr(s)
+	}
+	m.AddMapping(1, 2)
+	mod.Add(1, 2)
+	m.AdvanceColumn(gap)
+	mod.AdvCol(gap)
+	m.AddNamedMapping(1, 9, "n")
+	mod.AddNamed(1, 9, "n")
+	m.AdvanceLine()
+	mod.AdvLine()
+	m.AddMapping(gap, gap)
+	mod.Add(gap, gap)
+	m.AddNamedMapping(2, 0, "n")
+	mod.AddNamed(2, 0, "n")
+	return smCompare(m.SourceMap(), mod)
+}
+
 // smLong runs long regular histories (buffer / batch boundaries): n segments, a line break every `per`
 // segments (0: never), every `named`-th segment named (0: none), columns advancing by adv.
 func smLong(n, per, named, adv int) (kind, detail string) {
@@ -352,6 +394,21 @@ func c09Run(c *core.Ctx) {
 		}
 	}
 
+	// (2c) long runs of generated lines without a segment, and long single advances
+	for _, gap := range []int{2, 15, 16, 17, 63, 64, 65, 100, 127, 128, 129, 255, 256, 257, 1023, 1024, 1025, 5000} {
+		for _, how := range []int{0, 1, 2} {
+			if !c.Next() {
+				continue
+			}
+			c.Inc("long_histories")
+			k, d := smGap(gap, how)
+			if k != "" {
+				pl, _ := json.Marshal(smPayload{Long: []int{-gap, how, 0, 0}})
+				c.Violate(core.Violation{Kind: "gap-" + k, Case: fmt.Sprintf("%d generated lines without a segment (variant %d)", gap, how), Detail: core.Short(d, 600), Payload: pl, Size: gap})
+			}
+		}
+	}
+
 	// (3) explicit-state BFS with abstract-state dedup beyond the stateless depth (shard 0 only, so that
 	// the state count is a count of distinct abstract states)
 	if c.Shard == 0 {
@@ -431,6 +488,12 @@ func c09Replay(pl json.RawMessage) (string, []core.Violation) {
 			return "vlq probe", []core.Violation{{Kind: "vlq-" + k, Config: p.VLQ.Field, Case: fmt.Sprintf("delta %d", p.VLQ.B-p.VLQ.A), Detail: d}}
 		}
 		return "vlq probe ok", nil
+	}
+	if len(p.Long) == 4 && p.Long[0] < 0 {
+		if k, d := smGap(-p.Long[0], p.Long[1]); k != "" {
+			return "gap history", []core.Violation{{Kind: "gap-" + k, Case: fmt.Sprint(p.Long), Detail: core.Short(d, 600)}}
+		}
+		return "gap history ok", nil
 	}
 	if len(p.Long) == 4 {
 		if k, d := smLong(p.Long[0], p.Long[1], p.Long[2], p.Long[3]); k != "" {
